@@ -24,6 +24,7 @@ RULE = (
     "around 32699/32700, 0-3 ON ERR / ON BRK statements; options filter_unused_linenum x add_suffix (all four). Non-trivial: a "
     "reference from inside a nested arm or from an ON list position >= 2, or a refusal case; distinct by sha1 of the AST"
 )
+RULE += ' Also: numbering modes with labels that are prefixes of one another (1/10/100/1000/10000, 12/123/1234/12345) and with 25-45 lines of five-digit labels, ON lists of up to 12 targets, missing targets above 32699.'
 ASSUMPTIONS = [
     "the dispatcher's 'errnum' is read as 'the number of the error that was trapped' (B09-9); whether that name exists on a real system is not judged",
     "duplicate line numbers are outside the domain (a Color BASIC program cannot contain them)",
